@@ -10,6 +10,16 @@ NOTE = ("Trusted: Lean 4.33 kernel (axioms propext/Classical.choice/Quot.sound o
         "api-core, jinja2) is modelled, not verified; pandoc is replaced by a stand-in. ")
 
 CLAIMS = {
+    "C07": dict(
+        text="Lean 4 proof, by induction over ALL server page histories, that the pager model yields the items of the pages up "
+             "to and including the first empty token exactly once and in order, sends exactly the received tokens, leaves every "
+             "other request field and call option unchanged, stops at the first empty token, and exposes the last page; and an "
+             "iff-characterisation of paged_result_field (incl. the max_results precedence). Tie: T2 the real "
+             "Method.paged_result_field vs the model on generated shapes; T3 the emitted sync and asyncio pagers against a "
+             "loopback gRPC server with scripted histories vs the model; a model-independent oracle restating the property.",
+        technique="Lean 4 theorems (induction on page histories; iff-characterisation of the classifier) + differential T2/T3 against the emitted pagers",
+        design="7.7",
+        note="The pager's loop is modelled from pagers.py.j2 by hand; maps are compared per page as sets. A server that never returns an empty token is outside the model."),
     "C19": dict(
         text="Lean 4 proof (all patterns, all values, no size bound) on a regex-engine model of the emitted re.match that "
              "parse_<r>_path(<r>_path(vals)) returns exactly the segments and rebuilding returns the path, under an explicit "
